@@ -6,8 +6,9 @@
    (long generated histories log them only at checkpoints). *)
 EXTENDS TraceLib, FiniteSets
 CONSTANTS Gate, Prop
-VARIABLES bag, n, bag2, n2, hasb, nv, l
-vars == <<bag, n, bag2, n2, hasb, nv, l>>
+VARIABLES bags, ns, live, nv, l      \* per tree 1..3: multiset, size, does it exist (tree 1 always; 2 and 3 are made by Clone)
+vars == <<bags, ns, live, nv, l>>
+Trees == 1..3
 Ev == Trace[l]
 B0(k) == [v \in 1..k |-> 0]
 CountIn(s, v) == Cardinality({i \in 1..Len(s) : s[i] = v})
@@ -31,9 +32,7 @@ BalH(p, i) == IF Len(p) = 0 THEN {-1} ELSE
          : j \in { k \in 1..Len(i) : i[k] = p[1] } }
 \* ---- C01 ----
 \* "Remove(v) returns true ... when v is present, and otherwise returns false"; "Contains(v) is true exactly when v is in it"
-C_Ret(b, b2, e) == CASE e.op \in {"Remove", "Contains"} -> e.ret = (b[e.arg] > 0)
-                     [] e.op = "Remove2" -> e.ret = (b2[e.arg] > 0)
-                     [] OTHER -> TRUE
+C_Ret(pb, e) == e.op \in {"Remove", "Contains"} => e.ret = (pb[e.w][e.arg] > 0)
 \* "Len equals its size" (Len included when Remove changes nothing)
 C_Len(k, o) == o.len = k
 \* "the in-order walk lists in non-decreasing order exactly the multiset of values added and not yet removed"
@@ -47,28 +46,33 @@ C_String(o) == o.str = "[" \o Join(o.ino) \o "]"
 \* "Clone works for a tree of any size"; nothing panics
 C_NoPanic(e) == e.panic = ""
 TreeOK(b, k, o, full) == C_Len(k, o) /\ (full => C_Sorted(o) /\ C_Bag(b, k, o) /\ C_Has(b, o) /\ C_Consistent(o) /\ C_WalkSlice(o) /\ C_String(o))
-\* clone "returns a tree with the same contents that shares no state with the original": both trees are observed after every call
-AllC01(b, k, b2, k2, hb, pb, pb2, e) == /\ C_NoPanic(e) /\ C_Ret(pb, pb2, e) /\ TreeOK(b, k, e.a, e.full)
-                                        /\ e.hasb = hb /\ (hb => TreeOK(b2, k2, e.b, e.full))
+\* clone "returns a tree with the same contents that shares no state with the original": EVERY existing tree is observed after EVERY call
+AllC01(bs, ks, lv, pbs, e) == /\ C_NoPanic(e) /\ C_Ret(pbs, e)
+                              /\ \A i \in Trees : e.live[i] = lv[i] /\ (lv[i] => TreeOK(bs[i], ks[i], e.t[i], e.full))
 \* ---- C02 ----
 \* "After every Add or Remove the binary tree revealed by the pre-order and in-order traversals is height-balanced in the AVL sense"
 C_Balanced(o) == BalH(o.pre, o.ino) # {}
-AllC02(hb, e) == e.full => C_Balanced(e.a) /\ (hb /\ e.hasb => C_Balanced(e.b))
+AllC02(lv, e) == e.full => \A i \in Trees : (lv[i] /\ e.live[i]) => C_Balanced(e.t[i])
 \* ---- transition ----
 Bump(b, v, d) == [b EXCEPT ![v] = @ + d]
-TInit == bag = B0(0) /\ n = 0 /\ bag2 = B0(0) /\ n2 = 0 /\ hasb = FALSE /\ nv = 0 /\ l = 1
+TInit == bags = [i \in Trees |-> B0(0)] /\ ns = [i \in Trees |-> 0] /\ live = [i \in Trees |-> i = 1] /\ nv = 0 /\ l = 1
 Reset == /\ l <= Len(Trace) /\ Ev.op = "Reset" /\ l' = l + 1 /\ nv' = Ev.nv
-         /\ bag' = B0(Ev.nv) /\ n' = 0 /\ bag2' = B0(Ev.nv) /\ n2' = 0 /\ hasb' = FALSE
+         /\ bags' = [i \in Trees |-> B0(Ev.nv)] /\ ns' = [i \in Trees |-> 0] /\ live' = [i \in Trees |-> i = 1]
 Step == /\ l <= Len(Trace) /\ Ev.op # "Reset" /\ l' = l + 1 /\ nv' = nv
         /\ LET e == Ev
-               pres == (e.op = "Remove" /\ bag[e.arg] > 0)
-               pres2 == (e.op = "Remove2" /\ bag2[e.arg] > 0) IN
-           /\ bag' = CASE e.op = "Add" -> Bump(bag, e.arg, 1) [] pres -> Bump(bag, e.arg, -1) [] e.op = "Clear" -> B0(nv) [] OTHER -> bag
-           /\ n' = CASE e.op = "Add" -> n + 1 [] pres -> n - 1 [] e.op = "Clear" -> 0 [] OTHER -> n
-           /\ bag2' = CASE e.op = "Add2" -> Bump(bag2, e.arg, 1) [] pres2 -> Bump(bag2, e.arg, -1) [] e.op = "Clone" -> bag [] OTHER -> bag2
-           /\ n2' = CASE e.op = "Add2" -> n2 + 1 [] pres2 -> n2 - 1 [] e.op = "Clone" -> n [] OTHER -> n2
-           /\ hasb' = (hasb \/ e.op = "Clone")
-           /\ (Gate => IF Prop = "C01" THEN AllC01(bag', n', bag2', n2', hasb', bag, bag2, e) ELSE AllC02(hasb', e))
+               pres == (e.op = "Remove" /\ bags[e.w][e.arg] > 0) IN
+           /\ bags' = CASE e.op = "Add" -> [bags EXCEPT ![e.w] = Bump(@, e.arg, 1)]
+                         [] pres -> [bags EXCEPT ![e.w] = Bump(@, e.arg, -1)]
+                         [] e.op = "Clear" -> [bags EXCEPT ![e.w] = B0(nv)]
+                         [] e.op = "Clone" -> [bags EXCEPT ![e.dst] = bags[e.src]]
+                         [] OTHER -> bags
+           /\ ns' = CASE e.op = "Add" -> [ns EXCEPT ![e.w] = @ + 1]
+                       [] pres -> [ns EXCEPT ![e.w] = @ - 1]
+                       [] e.op = "Clear" -> [ns EXCEPT ![e.w] = 0]
+                       [] e.op = "Clone" -> [ns EXCEPT ![e.dst] = ns[e.src]]
+                       [] OTHER -> ns
+           /\ live' = IF e.op = "Clone" THEN [live EXCEPT ![e.dst] = TRUE] ELSE live
+           /\ (Gate => IF Prop = "C01" THEN AllC01(bags', ns', live', bags, e) ELSE AllC02(live', e))
 TSpec == TInit /\ [][Reset \/ Step]_vars
 Track == TrackL(l)
 Accepted == AcceptedP
@@ -76,16 +80,17 @@ Accepted == AcceptedP
 \*      which is recovered from the line itself) ----
 Obs == Trace[l - 1]
 Chk == ~Gate /\ l > 1 /\ Obs.op # "Reset"
-Undo(b, e, o) == IF e.op = o /\ e.ret THEN Bump(b, e.arg, 1) ELSE b
+Undo(bs, e) == IF e.op = "Remove" /\ e.ret THEN [bs EXCEPT ![e.w] = Bump(@, e.arg, 1)] ELSE bs
+Ex(i) == live[i] /\ Obs.live[i]
 I_NoPanic == Chk => C_NoPanic(Obs)
-I_Ret == Chk => C_Ret(Undo(bag, Obs, "Remove"), Undo(bag2, Obs, "Remove2"), Obs)
-I_Len == Chk => C_Len(n, Obs.a) /\ (hasb /\ Obs.hasb => C_Len(n2, Obs.b))
-I_Sorted == Chk /\ Obs.full => C_Sorted(Obs.a) /\ (hasb /\ Obs.hasb => C_Sorted(Obs.b))
-I_Bag == Chk /\ Obs.full => C_Bag(bag, n, Obs.a) /\ (hasb /\ Obs.hasb => C_Bag(bag2, n2, Obs.b))
-I_Has == Chk /\ Obs.full => C_Has(bag, Obs.a) /\ (hasb /\ Obs.hasb => C_Has(bag2, Obs.b))
-I_Consistent == Chk /\ Obs.full => C_Consistent(Obs.a) /\ (hasb /\ Obs.hasb => C_Consistent(Obs.b))
-I_WalkSlice == Chk /\ Obs.full => C_WalkSlice(Obs.a) /\ (hasb /\ Obs.hasb => C_WalkSlice(Obs.b))
-I_String == Chk /\ Obs.full => C_String(Obs.a) /\ (hasb /\ Obs.hasb => C_String(Obs.b))
-I_Clone == Chk => Obs.hasb = hasb
-I_Balanced == Chk => AllC02(hasb, Obs)
+I_Ret == Chk => C_Ret(Undo(bags, Obs), Obs)
+I_Len == Chk => \A i \in Trees : Ex(i) => C_Len(ns[i], Obs.t[i])
+I_Sorted == Chk /\ Obs.full => \A i \in Trees : Ex(i) => C_Sorted(Obs.t[i])
+I_Bag == Chk /\ Obs.full => \A i \in Trees : Ex(i) => C_Bag(bags[i], ns[i], Obs.t[i])
+I_Has == Chk /\ Obs.full => \A i \in Trees : Ex(i) => C_Has(bags[i], Obs.t[i])
+I_Consistent == Chk /\ Obs.full => \A i \in Trees : Ex(i) => C_Consistent(Obs.t[i])
+I_WalkSlice == Chk /\ Obs.full => \A i \in Trees : Ex(i) => C_WalkSlice(Obs.t[i])
+I_String == Chk /\ Obs.full => \A i \in Trees : Ex(i) => C_String(Obs.t[i])
+I_Clone == Chk => \A i \in Trees : Obs.live[i] = live[i]
+I_Balanced == Chk => AllC02(live, Obs)
 ====
